@@ -8,7 +8,9 @@ Tie X (op `params`): directories of 1..5 model files in two languages with
 random import graphs (cycles, self imports, globs over a directory), loaded by
 string / string-with-file-name / file, with every provider family that follows
 imports (ImportURI glob, ImportURI search path, GlobalRepo patterns with and
-without `project_root`, grammar RREL `+m:`), with and without the metamodel's
+without `project_root`, `project_root` in every spelling: relative to the cwd, with `.` / `..`
+components, trailing separators, other directories, non-path values; loads from
+another cwd; grammar RREL `+m:`), with and without the metamodel's
 global repository (optionally pre-filled by an earlier load with other
 parameters).  Observation: exception class, and `_tx_model_params` of every
 model of the load — at the end, inside the pre-reference-resolution callback
@@ -313,7 +315,10 @@ class Prop(Check):
     THOROUGH_CASES = 10000
     PROCS_THOROUGH = 4  # shared machine while the framework is being built
     RULE = ("declared names: project_root + random subset of 10 names (unicode, empty, with space, case variants, prefixes); "
-            "keyword arguments: 0..4 names (35% of the cases with an undeclared one) with values of 11 shapes; entry "
+            "keyword arguments: 0..4 names (35% of the cases with an undeclared one) with values of 15 shapes (incl. strings a "
+            "call site could normalise); the built-in project_root in 19 spellings (absolute / relative to the cwd, `.` and "
+            "`..` components, trailing / doubled separators, the case's directory or its sub-directory, no directory) and, "
+            "where no relative pattern is joined with it, arbitrary values; 40% of the loads from another cwd; entry "
             "model_from_file / model_from_str with file name / model_from_str; 1..5 files in two directories and two "
             "languages (multi-metamodel) with random import graphs incl. cycles, self imports, directory globs; provider "
             "none / ImportURI glob (PlainName, FQN) / ImportURI search path / GlobalRepo (PlainName, FQN; absolute or "
